@@ -185,7 +185,7 @@ let c16_oracle (t0 : int) (off : int) (ops : op list) (obs : string list) : stri
   if List.length ops <> List.length obs then "fail observation-shape" else
   let cfg = ref None and active = ref false and last_snap = ref None in
   (* the start-time name part: the (virtual) time of the first operation of the writer that computes a file name *)
-  let now = ref t0 and start = ref None in
+  let now = ref t0 and start = ref None and earlier = ref [] in
   let starttxt () = match !start with
     | Some t -> format_ts start_fmt (civil_of (z_of_int (t + off)))
     | None -> [] in
@@ -198,8 +198,11 @@ let c16_oracle (t0 : int) (off : int) (ops : op list) (obs : string list) : stri
        | OStart _ | OReset _ -> start := None
        | _ -> ());
       match op with
-      | OStart c -> cfg := Some c; active := false
-      | OReset c -> cfg := Some c; active := false
+      | OStart c | OReset c ->
+        cfg := Some c; active := false;
+        (* files of earlier runs carry the start time of their run: only the files this run creates are checked against
+           its start time *)
+        earlier := (match !last_snap with Some snap when c.c_spec.fts -> List.map (fun ((nm, _), _) -> nm) snap | _ -> [])
       | OWrite _ | OPlain _ -> if ob = "r0" then active := true
       | OStop -> cfg := None; active := false
       | OSnap when is_snapshot ob ->
@@ -209,7 +212,7 @@ let c16_oracle (t0 : int) (off : int) (ops : op list) (obs : string list) : stri
          | Some c ->
            incr checks;
            List.iter (fun ((nm, k), _) ->
-               if int_of_n k <= 2 && not (name_documented c (starttxt ()) nm) then
+               if int_of_n k <= 2 && not (List.mem nm !earlier) && not (name_documented c (starttxt ()) nm) then
                  fail ("file-not-named-as-documented " ^ hex_of_bytes nm)) snap;
            if c.c_symlink && !active && not c.c_spec.fts then begin
              let l = link_of_snapshot ob in
@@ -227,7 +230,7 @@ let c16_oracle (t0 : int) (off : int) (ops : op list) (obs : string list) : stri
            else begin
              let inner = String.sub ob 3 (String.length ob - 4) in
              let names = if inner = "" then [] else List.map bytes_of_hex (split_on ',' inner) in
-             if c.c_rot <> None && not (oracle_listing sel c snap names) then
+             if not (oracle_listing sel c snap names) then
                fail (Printf.sprintf "listing-differs-from-the-existing-selected-files got=[%s] expected=[%s]" inner
                        (String.concat "," (List.map hex_of_bytes (expected_listing sel c snap))))
            end
